@@ -297,9 +297,11 @@ Proof.
   destruct (drop_last_space_keep p t Hne Hl) as [t' Hd].
   destruct p as [|c0 p']; [contradiction|].
   cbn [app] in *. cbn [wrap_chunks]. rewrite andb_false_r. rewrite Ht.
-  cbv iota beta. rewrite Hd. cbv iota beta.
+  cbv iota beta.
   exists (concat t'), (wrap_chunks f w rest true).
-  change (c0 :: p' ++ t') with ((c0 :: p') ++ t'). rewrite concat_app. reflexivity.
+  match goal with |- context [drop_last_space ?x] =>
+    replace (drop_last_space x) with ((c0 :: p') ++ t') by (symmetry; exact Hd) end.
+  cbn [app]. change (c0 :: p' ++ t') with ((c0 :: p') ++ t'). rewrite concat_app. reflexivity.
 Qed.
 
 (* the chunk boundaries respect a prefix that ends in a non-blank and is followed by a blank *)
@@ -360,8 +362,540 @@ Proof.
   destruct (chunks_spec _ (single_spaced_normal _ Hss)) as [[k Hg] Hcat].
   destruct (chunk_split _ k h D Hg Hcat (or_intror (ex_intro _ l (conj Hl Hlsp)))) as [p [q [Ecs Ep]]].
   destruct (last_chunk_word _ k p q h l Hg Ecs Ep Hl Hlsp) as [Hlw Hpne].
-  rewrite Ecs in Er.
-  destruct (wrap_first_prefix (List.length (p ++ q)) w p q Hpne) as [x [more Hw]]; [rewrite Ep; exact Hlen|exact Hlw|].
-  rewrite Hw in Er. rewrite Ep in Er. subst r.
+  subst r. rewrite Ecs.
+  match goal with |- context [wrap_chunks (S ?f) w ?cs false] =>
+    destruct (wrap_first_prefix f w p q Hpne) as [x [more Hw]];
+      [rewrite Ep; exact Hlen|exact Hlw|];
+    replace (wrap_chunks (S f) w cs false) with ((concat p ++ x) :: more) by (symmetry; exact Hw) end.
+  rewrite Ep.
   destruct more as [|m1 more']; cbn [join]; rewrite <- ?app_assoc; apply startswith_app.
 Qed.
+
+(* ------------------------------------------------------------------ lines joined by a blank / by a line break and blanks *)
+
+Definition allsp_pad (pad : str) : Prop := forallb (fun c => ascii_eqb c sp) pad = true.
+
+Lemma allsp_pad_isspace : forall pad, allsp_pad pad -> forallb isspace pad = true.
+Proof.
+  intros pad H. unfold allsp_pad in H. rewrite forallb_forall in *. intros c Hc.
+  specialize (H c Hc). apply ascii_eqb_eq in H. subst c. reflexivity.
+Qed.
+
+Lemma join_as_concat : forall sep (x : str) l, join sep (x :: l) = x ++ concat (map (fun y => sep ++ y) l).
+Proof.
+  intros sep x l. revert x. induction l as [|y l IH]; intros x.
+  - cbn [join map concat]. rewrite app_nil_r. reflexivity.
+  - change (join sep (x :: y :: l)) with (x ++ sep ++ join sep (y :: l)). rewrite IH.
+    cbn [map concat]. rewrite <- !app_assoc. reflexivity.
+Qed.
+
+Lemma join_pad_lines : forall pad (l0 : str) ls,
+    join (nl :: pad) (l0 :: ls) = join [nl] (l0 :: map (fun l => pad ++ l) ls).
+Proof.
+  intros pad l0 ls. rewrite !join_as_concat, map_map. reflexivity.
+Qed.
+
+Lemma line_ok_not_blank : forall l, line_ok l -> forallb isspace l = false.
+Proof. intros l [[[c [r [E Hc]]] _] _]. rewrite E. cbn [forallb]. rewrite Hc. reflexivity. Qed.
+
+Lemma line_ok_no_nl : forall l, line_ok l -> ~ In nl l.
+Proof. intros l [_ H]. apply mem_c_false_notin. exact H. Qed.
+
+Lemma indent_lines_nonblank : forall prefix ls,
+    Forall line_ok ls -> indent_lines prefix ls = map (fun l => prefix ++ l) ls.
+Proof.
+  intros prefix ls H. induction H as [|l ls Hl _ IH]; [reflexivity|].
+  cbn [indent_lines map]. rewrite (line_ok_not_blank l Hl), IH. reflexivity.
+Qed.
+
+Definition P1 : str := repeat_str tab 1.
+
+Lemma P1_allsp : allsp_pad P1.
+Proof. reflexivity. Qed.
+
+Lemma pad_line_no_nl : forall pad l, allsp_pad pad -> line_ok l -> ~ In nl (pad ++ l).
+Proof.
+  intros pad l Hp Hl Hin. apply in_app_or in Hin. destruct Hin as [Hin|Hin]; [|exact (line_ok_no_nl l Hl Hin)].
+  unfold allsp_pad in Hp. rewrite forallb_forall in Hp. specialize (Hp nl Hin). discriminate.
+Qed.
+
+Lemma lstrip_pad_line : forall pad l, allsp_pad pad -> line_ok l -> lstrip (pad ++ l) = l.
+Proof.
+  intros pad l Hp [[[c [r [E Hc]]] _] _]. rewrite (lstrip_pad pad l (allsp_pad_isspace pad Hp)).
+  unfold lstrip. apply lstrip_by_id. intros c' Hc'. rewrite E in Hc'. injection Hc' as Hc'. subst c'. exact Hc.
+Qed.
+
+Lemma strip_pad_line : forall pad l, allsp_pad pad -> line_ok l -> strip (pad ++ l) = l.
+Proof.
+  intros pad l Hp [He _]. rewrite <- (app_nil_r l) at 1.
+  apply (strip_pad pad l [] (allsp_pad_isspace pad Hp) eq_refl He).
+Qed.
+
+(* indent_all_but_first on the lines of a filled text *)
+Lemma iabf_join : forall l0 ls,
+    Forall line_ok (l0 :: ls) ->
+    indent_all_but_first (join [nl] (l0 :: ls)) 1 false = join (nl :: P1) (l0 :: ls).
+Proof.
+  intros l0 ls H. unfold indent_all_but_first, indent. fold P1.
+  assert (Hnn : Forall (fun l => ~ In nl l) (l0 :: ls)).
+  { apply Forall_forall. intros l Hl. apply line_ok_no_nl. rewrite Forall_forall in H. apply H. exact Hl. }
+  rewrite (split_nl_join_lines _ Hnn). rewrite (indent_lines_nonblank P1 _ H). cbn [map].
+  assert (Hnn' : Forall (fun l => ~ In nl l) ((P1 ++ l0) :: map (fun l => P1 ++ l) ls)).
+  { inversion H as [|a b Ha Hb]; subst. constructor; [apply pad_line_no_nl; [exact P1_allsp|exact Ha]|].
+    apply Forall_forall. intros l Hl. apply in_map_iff in Hl. destruct Hl as [l' [E Hl']]. subst l.
+    apply pad_line_no_nl; [exact P1_allsp|]. rewrite Forall_forall in Hb. apply Hb. exact Hl'. }
+  rewrite (split_nl_join_lines _ Hnn').
+  inversion H as [|a b Ha Hb]; subst.
+  rewrite (lstrip_pad_line P1 l0 P1_allsp Ha). symmetry. apply join_pad_lines.
+Qed.
+
+Lemma join_edge_ok : forall sep ls, ls <> [] -> Forall line_ok ls -> edge_ok (join sep ls).
+Proof.
+  intros sep ls Hne H. induction H as [|l ls Hl Hls IH]; [contradiction|].
+  destruct ls as [|l2 ls'].
+  - cbn [join]. apply Hl.
+  - change (join sep (l :: l2 :: ls')) with (l ++ sep ++ join sep (l2 :: ls')).
+    specialize (IH ltac:(discriminate)). destruct Hl as [[[c [r [E Hc]]] _] _]. destruct IH as [_ [z [Hz Hzs]]]. split.
+    + exists c, (r ++ sep ++ join sep (l2 :: ls')). rewrite E. split; [reflexivity|exact Hc].
+    + exists z. split; [|exact Hzs]. rewrite app_assoc. rewrite last_c_app_nonnil; [exact Hz|].
+      intros E0. rewrite E0 in Hz. discriminate.
+Qed.
+
+Lemma rejoin_wrapped : forall pad ls, allsp_pad pad -> ls <> [] -> Forall line_ok ls ->
+    rejoin (join (nl :: pad) ls) = join [sp] ls.
+Proof.
+  intros pad ls Hp Hne H. destruct ls as [|l0 ls']; [contradiction|].
+  unfold rejoin. rewrite join_pad_lines.
+  assert (Hnn : Forall (fun l => ~ In nl l) (l0 :: map (fun l => pad ++ l) ls')).
+  { inversion H as [|a b Ha Hb]; subst. constructor; [apply line_ok_no_nl; exact Ha|].
+    apply Forall_forall. intros l Hl. apply in_map_iff in Hl. destruct Hl as [l' [E Hl']]. subst l.
+    apply pad_line_no_nl; [exact Hp|]. rewrite Forall_forall in Hb. apply Hb. exact Hl'. }
+  rewrite (split_nl_join_lines _ Hnn). cbn [map]. inversion H as [|a b Ha Hb]; subst.
+  rewrite (strip_edge_ok l0 (proj1 Ha)). f_equal. f_equal. rewrite map_map.
+  clear -Hp Hb. induction Hb as [|l ls Hl _ IH]; [reflexivity|].
+  cbn [map]. rewrite (strip_pad_line pad l Hp Hl), IH. reflexivity.
+Qed.
+
+Lemma rejoin_single_line : forall d, edge_ok d -> mem_c nl d = false -> rejoin d = d.
+Proof.
+  intros d He Hnl. unfold rejoin. rewrite (split_nl_single d Hnl). cbn [map join]. apply strip_edge_ok. exact He.
+Qed.
+
+Lemma join_sp_line_ok : forall ls, ls <> [] -> Forall line_ok ls -> line_ok (join [sp] ls).
+Proof.
+  intros ls Hne H. split; [apply join_edge_ok; assumption|].
+  clear Hne. induction H as [|l ls Hl _ IH]; [reflexivity|].
+  destruct ls as [|l2 ls']; [cbn [join]; apply Hl|].
+  change (join [sp] (l :: l2 :: ls')) with (l ++ [sp] ++ join [sp] (l2 :: ls')).
+  rewrite !mem_c_app, (proj2 Hl), IH. reflexivity.
+Qed.
+
+Lemma words_wrapped : forall pad ls, allsp_pad pad -> words (join (nl :: pad) ls) = words (join [sp] ls).
+Proof.
+  intros pad ls Hp. induction ls as [|l ls IH]; [reflexivity|].
+  destruct ls as [|l2 ls']; [reflexivity|].
+  change (join (nl :: pad) (l :: l2 :: ls')) with (l ++ nl :: (pad ++ join (nl :: pad) (l2 :: ls'))).
+  change (join [sp] (l :: l2 :: ls')) with (l ++ sp :: join [sp] (l2 :: ls')).
+  rewrite !words_app_sp_mid by reflexivity. rewrite words_app_allsp_l, IH; [reflexivity|].
+  unfold allsp, allsp_pad in *. rewrite forallb_forall in *. intros c Hc. specialize (Hp c Hc).
+  apply ascii_eqb_eq in Hp. subst c. reflexivity.
+Qed.
+
+(* ---- token-freeness ---- *)
+Lemma no_rest_token_app_inv : forall a b, no_rest_token (a ++ b) = true ->
+    no_rest_token a = true /\ no_rest_token b = true.
+Proof.
+  intros a b H. rewrite no_rest_token_spec in H. split; apply no_rest_token_spec; intros t Ht;
+    specialize (H t Ht).
+  - destruct (contains t a) eqn:E; [|reflexivity]. rewrite (contains_app_l t a b E) in H. discriminate.
+  - destruct (contains t b) eqn:E; [|reflexivity]. rewrite (contains_app_r t b a E) in H. discriminate.
+Qed.
+
+Lemma no_rest_token_wrapped : forall pad ls, allsp_pad pad ->
+    no_rest_token (join [sp] ls) = true -> no_rest_token (join (nl :: pad) ls) = true.
+Proof.
+  intros pad ls Hp. induction ls as [|l ls IH]; intros H; [exact H|].
+  destruct ls as [|l2 ls']; [exact H|].
+  change (join [sp] (l :: l2 :: ls')) with (l ++ [sp] ++ join [sp] (l2 :: ls')) in H.
+  change (join (nl :: pad) (l :: l2 :: ls')) with (l ++ (nl :: pad) ++ join (nl :: pad) (l2 :: ls')).
+  destruct (no_rest_token_app_inv _ _ H) as [Hl H2]. destruct (no_rest_token_app_inv _ _ H2) as [_ H3].
+  apply no_rest_token_app_r; [exact Hl| |].
+  - apply no_rest_token_pad; [|apply IH; exact H3].
+    cbn [forallb]. rewrite (allsp_pad_isspace pad Hp). reflexivity.
+  - intros c Hc. cbn [app head_c] in Hc. injection Hc as Hc. subst c. reflexivity.
+Qed.
+
+(* ---- announcements ---- *)
+Definition anns_cf : list str := map casefold default_announces.
+
+Definition ann_free (x : str) : Prop := forall t, In t anns_cf -> contains t x = false.
+
+Lemma no_announce_spec : forall x, no_announce x = true <-> ann_free (casefold x).
+Proof.
+  intros x. unfold no_announce, ann_free, anns_cf. rewrite forallb_forall. split; intros H.
+  - intros t Ht. apply in_map_iff in Ht. destruct Ht as [a [E Ha]]. subst t.
+    apply negb_true_iff. apply H. exact Ha.
+  - intros a Ha. apply negb_true_iff. apply H. apply in_map. exact Ha.
+Qed.
+
+Lemma ann_shape : forall t, In t anns_cf ->
+    (exists c r, t = c :: r /\ c <> nl /\ c <> sp)
+    /\ (~ In nl t \/ exists X, t = X ++ [nl] /\ ~ In nl X /\ In (X ++ [sp]) anns_cf).
+Proof.
+  intros t H. vm_compute in H. destruct H as [H|[H|[H|[H|[]]]]]; subst t.
+  - split; [eexists; eexists; split; [reflexivity|split; discriminate]|].
+    left. intros Hin. apply mem_c_In in Hin. vm_compute in Hin. discriminate.
+  - split; [eexists; eexists; split; [reflexivity|split; discriminate]|].
+    right. exists (L "defaults to"). split; [reflexivity|]. split.
+    + intros Hin. apply mem_c_In in Hin. vm_compute in Hin. discriminate.
+    + left. reflexivity.
+  - split; [eexists; eexists; split; [reflexivity|split; discriminate]|].
+    left. intros Hin. apply mem_c_In in Hin. vm_compute in Hin. discriminate.
+  - split; [eexists; eexists; split; [reflexivity|split; discriminate]|].
+    left. intros Hin. apply mem_c_In in Hin. vm_compute in Hin. discriminate.
+Qed.
+
+Lemma ann_free_app_inv : forall a b, ann_free (a ++ b) -> ann_free a /\ ann_free b.
+Proof.
+  intros a b H. split; intros t Ht; specialize (H t Ht).
+  - destruct (contains t a) eqn:E; [|reflexivity]. rewrite (contains_app_l t a b E) in H. discriminate.
+  - destruct (contains t b) eqn:E; [|reflexivity]. rewrite (contains_app_r t b a E) in H. discriminate.
+Qed.
+
+Lemma split_last_nl : forall X m m', ~ In nl X -> m ++ nl :: m' = X ++ [nl] -> m = X /\ m' = [].
+Proof.
+  induction X as [|x X IH]; intros m m' Hn E.
+  - destruct m as [|c m1]; [cbn in E; injection E as E; subst; split; reflexivity|].
+    cbn [app] in E. injection E as _ E. destruct m1; discriminate.
+  - destruct m as [|c m1].
+    + cbn [app] in E. injection E as Ex _. exfalso. apply Hn. left. symmetry. exact Ex.
+    + cbn [app] in E. injection E as Ec E. subst c.
+      destruct (IH m1 m' (fun Hin => Hn (or_intror Hin)) E) as [E1 E2]. subst. split; reflexivity.
+Qed.
+
+Lemma contains_blanks_false : forall t ws, (exists c r, t = c :: r /\ c <> nl /\ c <> sp) ->
+    (forall x, In x ws -> x = nl \/ x = sp) -> contains t ws = false.
+Proof.
+  intros t ws [c [r [E [H1 H2]]]] Hws. destruct (contains t ws) eqn:Ec; [|reflexivity]. exfalso.
+  apply contains_true_iff in Ec. destruct Ec as [a [b Eab]]. subst t.
+  assert (Hin : In c ws) by (rewrite Eab; apply in_or_app; right; left; reflexivity).
+  destruct (Hws c Hin); contradiction.
+Qed.
+
+Lemma ann_free_wrapped : forall pad ls, allsp_pad pad ->
+    ann_free (join [sp] ls) -> ann_free (join (nl :: pad) ls).
+Proof.
+  intros pad ls Hp. induction ls as [|l ls IH]; intros H; [exact H|].
+  destruct ls as [|l2 ls']; [exact H|].
+  change (join [sp] (l :: l2 :: ls')) with (l ++ [sp] ++ join [sp] (l2 :: ls')) in H.
+  change (join (nl :: pad) (l :: l2 :: ls')) with (l ++ (nl :: pad) ++ join (nl :: pad) (l2 :: ls')).
+  destruct (ann_free_app_inv _ _ H) as [Hl H2]. destruct (ann_free_app_inv _ _ H2) as [_ H3].
+  specialize (IH H3). set (W' := join (nl :: pad) (l2 :: ls')) in *.
+  assert (Hpadch : forall x, In x (nl :: pad) -> x = nl \/ x = sp).
+  { intros x [E|Hx]; [left; symmetry; exact E|right].
+    unfold allsp_pad in Hp. rewrite forallb_forall in Hp. apply ascii_eqb_eq. apply Hp. exact Hx. }
+  intros t Ht. destruct (ann_shape t Ht) as [Hfirst Hnl].
+  (* no occurrence in the break and what follows *)
+  assert (HB : contains t ((nl :: pad) ++ W') = false).
+  { destruct (contains t ((nl :: pad) ++ W')) eqn:E; [|reflexivity]. exfalso.
+    destruct (contains_straddle t (nl :: pad) W' (contains_blanks_false t _ Hfirst Hpadch) (IH t Ht) E)
+      as [m [m' [Hm [_ [Et [Hew _]]]]]].
+    destruct Hfirst as [c [r [Ec [Hc1 Hc2]]]]. destruct m as [|y m1]; [contradiction|].
+    rewrite Et in Ec. cbn [app] in Ec. injection Ec as Ey _. subst y.
+    apply endswith_iff in Hew. destruct Hew as [u Eu].
+    assert (Hin : In c (nl :: pad)) by (rewrite Eu; apply in_or_app; right; left; reflexivity).
+    destruct (Hpadch c Hin); contradiction. }
+  destruct (contains t (l ++ (nl :: pad) ++ W')) eqn:E; [|reflexivity]. exfalso.
+  destruct (contains_straddle t l _ (Hl t Ht) HB E) as [m [m' [Hm [Hm' [Et [Hew Hsw]]]]]].
+  destruct m' as [|y m'']; [contradiction|]. cbn [app startswith] in Hsw.
+  apply andb_true_iff in Hsw. destruct Hsw as [Hy _]. apply ascii_eqb_eq in Hy. subst y.
+  destruct Hnl as [Hno|[X [EX [HnX HXsp]]]].
+  - apply Hno. rewrite Et. apply in_or_app. right. left. reflexivity.
+  - rewrite EX in Et. symmetry in Et. destruct (split_last_nl X m m'' HnX Et) as [Em _]. subst m.
+    apply endswith_iff in Hew. destruct Hew as [u Eu].
+    assert (Hc : contains (X ++ [sp]) (l ++ [sp] ++ join [sp] (l2 :: ls')) = true).
+    { apply contains_true_iff. exists u, (join [sp] (l2 :: ls')). rewrite Eu. rewrite <- !app_assoc. reflexivity. }
+    rewrite (H _ HXsp) in Hc. discriminate.
+Qed.
+
+Lemma casefold_join : forall sep l, casefold (join sep l) = join (casefold sep) (map casefold l).
+Proof.
+  intros sep l. induction l as [|x l IH]; [reflexivity|].
+  destruct l as [|y l']; [reflexivity|].
+  change (join sep (x :: y :: l')) with (x ++ sep ++ join sep (y :: l')).
+  rewrite !casefold_app, IH. reflexivity.
+Qed.
+
+Lemma casefold_pad : forall pad, allsp_pad pad -> casefold (nl :: pad) = nl :: pad /\ allsp_pad pad.
+Proof.
+  intros pad Hp. split; [|exact Hp]. rewrite casefold_cons. f_equal.
+  unfold allsp_pad in Hp. induction pad as [|c pad IH]; [reflexivity|].
+  cbn [forallb] in Hp. apply andb_true_iff in Hp. destruct Hp as [Hc Hp]. apply ascii_eqb_eq in Hc. subst c.
+  rewrite casefold_cons, (IH Hp). reflexivity.
+Qed.
+
+Lemma no_announce_wrapped : forall pad ls, allsp_pad pad ->
+    no_announce (join [sp] ls) = true -> no_announce (join (nl :: pad) ls) = true.
+Proof.
+  intros pad ls Hp H. apply no_announce_spec. apply no_announce_spec in H.
+  rewrite casefold_join in *. rewrite (proj1 (casefold_pad pad Hp)).
+  change (casefold [sp]) with [sp] in H. apply ann_free_wrapped; assumption.
+Qed.
+
+(* ------------------------------------------------------------------ a wrapped  header value  line *)
+
+Lemma takewhile_app_all : forall (p : ascii -> bool) a s, forallb p a = true -> takewhile p (a ++ s) = a ++ takewhile p s.
+Proof.
+  intros p a s. induction a as [|x a IH]; intros H; [reflexivity|].
+  cbn [forallb] in H. apply andb_true_iff in H. destruct H as [Hx Ha].
+  cbn [app takewhile]. rewrite Hx, (IH Ha). reflexivity.
+Qed.
+
+Lemma value_after_pad : forall hdr pad v,
+    forallb isspace pad = true -> (exists c r, v = c :: r /\ isspace c = false) ->
+    value_after hdr (hdr ++ pad ++ v) = Some (pad, v).
+Proof.
+  intros hdr pad v Hp [c [r [E Hc]]]. unfold value_after. rewrite startswith_app, skipn_app_exact.
+  rewrite (takewhile_app_all isspace pad v Hp), (dropwhile_app_all isspace pad v Hp). subst v.
+  cbn [takewhile dropwhile]. rewrite Hc, app_nil_r. reflexivity.
+Qed.
+
+Lemma edge_okb_of : forall x, edge_ok x -> edge_okb x = true.
+Proof.
+  intros x [[c [r [E Hc]]] [l [Hl Hls]]]. unfold edge_okb. rewrite Hl, E, Hc, Hls. reflexivity.
+Qed.
+
+Lemma wrapped_value : forall w hdr D r l,
+    tidy D = true -> tidy (hdr ++ sp :: D) = true -> last_c hdr = Some l -> isspace l = false ->
+    List.length hdr <= w -> fill w (hdr ++ sp :: D) = Ok r ->
+    exists pad lsV, lsV <> [] /\ Forall line_ok lsV /\ D = join [sp] lsV
+      /\ indent_all_but_first r 1 false = hdr ++ pad ++ join (nl :: P1) lsV
+      /\ (pad = [sp] \/ pad = nl :: P1).
+Proof.
+  intros w hdr D r l HtD Hts Hl Hls Hlen Hf.
+  destruct (tidy_inv _ Hts) as [Hss _]. destruct (tidy_inv _ HtD) as [_ [d0 [dr [ED Hd0]]]].
+  assert (Hlsp : l <> sp) by (intros E; subst l; discriminate).
+  pose proof (fill_first_line w hdr D r l Hss Hl Hlsp Hlen Hf) as Hsw.
+  destruct (fill_tidy_repr w _ r Hts Hf) as [ls [Hne [Es [Er F]]]].
+  destruct ls as [|l0 ls']; [contradiction|].
+  assert (Hnlh : ~ In nl hdr).
+  { intros Hin. assert (Hm : mem_c nl (hdr ++ sp :: D) = false) by (apply single_spaced_no; [exact Hss|reflexivity|discriminate]).
+    rewrite mem_c_app in Hm. apply orb_false_iff in Hm. apply mem_c_In in Hin. destruct Hm. congruence. }
+  (* the header lies within the first line *)
+  assert (Hl0 : exists x, l0 = hdr ++ x).
+  { rewrite Er, join_as_concat in Hsw.
+    destruct (startswith_app_cases _ _ _ Hsw) as [H|[q [Eq [Hq Hsq]]]]; [apply startswith_iff; exact H|]. exfalso.
+    destruct ls' as [|l1 ls'']; [cbn [map concat] in Hsq; destruct q; [contradiction|discriminate]|].
+    cbn [map concat app] in Hsq. destruct q as [|y q']; [contradiction|]. cbn [startswith] in Hsq.
+    apply andb_true_iff in Hsq. destruct Hsq as [Hy _]. apply ascii_eqb_eq in Hy. subst y.
+    apply Hnlh. rewrite Eq. apply in_or_app. right. left. reflexivity. }
+  destruct Hl0 as [x Ex].
+  rewrite Er, (iabf_join l0 ls' F). rewrite join_as_concat in Es. rewrite join_as_concat.
+  rewrite Ex in Es. rewrite <- app_assoc in Es. apply app_inv_head in Es.
+  inversion F as [|a b Hl0ok Hrest]; subst a b.
+  destruct x as [|y x'].
+  - (* the break comes right after the header *)
+    cbn [app] in Es. destruct ls' as [|l1 ls'']; [discriminate|]. cbn [map concat app] in Es. injection Es as Es.
+    exists (nl :: P1), (l1 :: ls''). split; [discriminate|]. split; [exact Hrest|]. split.
+    + rewrite join_as_concat. exact Es.
+    + split; [|right; reflexivity]. rewrite Ex, app_nil_r. cbn [map concat]. rewrite join_as_concat.
+      rewrite <- !app_assoc. reflexivity.
+  - cbn [app] in Es. injection Es as Ey Es. subst y.
+    assert (Hx' : line_ok x').
+    { destruct Hl0ok as [[_ [z [Hz Hzs]]] Hnl0]. rewrite Ex in *.
+      assert (Hx'ne : x' <> []).
+      { intros E. subst x'. rewrite last_c_app_nonnil in Hz by discriminate. cbn in Hz. injection Hz as Hz. subst z. discriminate. }
+      split; [split|].
+      - destruct x' as [|c0 x'']; [contradiction|]. exists c0, x''. split; [reflexivity|].
+        rewrite ED in Es. cbn [app] in Es. injection Es as E0 _. subst c0. exact Hd0.
+      - exists z. split; [|exact Hzs]. rewrite last_c_app_nonnil in Hz by discriminate.
+        rewrite last_c_cons_ne in Hz by exact Hx'ne. exact Hz.
+      - rewrite mem_c_app, mem_c_cons in Hnl0. apply orb_false_iff in Hnl0. destruct Hnl0 as [_ Hn].
+        apply orb_false_iff in Hn. apply Hn. }
+    exists [sp], (x' :: ls'). split; [discriminate|]. split; [constructor; assumption|]. split.
+    + rewrite join_as_concat. exact Es.
+    + split; [|left; reflexivity]. rewrite Ex, join_as_concat. rewrite <- !app_assoc. reflexivity.
+Qed.
+
+Lemma line_ok_first : forall ls sep, ls <> [] -> Forall line_ok ls ->
+    exists c r, join sep ls = c :: r /\ isspace c = false.
+Proof.
+  intros ls sep Hne F. destruct (join_edge_ok sep ls Hne F) as [H _]. exact H.
+Qed.
+
+Lemma fill_ok_tidy : forall w s, 0 < w -> single_spaced s = true -> exists r, fill w s = Ok r.
+Proof.
+  intros w s Hw Hs. apply fill_guard_ok. unfold fill_guard.
+  rewrite (single_spaced_no s tabch Hs eq_refl ltac:(discriminate)).
+  assert (E : Nat.ltb 0 w = true) by (apply Nat.ltb_lt; exact Hw). rewrite E. reflexivity.
+Qed.
+
+Lemma norm_doc_wrapped : forall lsV, lsV <> [] -> Forall line_ok lsV ->
+    norm_doc (join (nl :: P1) lsV) = norm_doc (join [sp] lsV).
+Proof.
+  intros lsV Hne F. unfold norm_doc. rewrite (rejoin_wrapped P1 lsV P1_allsp Hne F).
+  destruct (join_sp_line_ok lsV Hne F) as [He Hnl]. rewrite (rejoin_single_line _ He Hnl). reflexivity.
+Qed.
+
+Lemma tidy_prose_line_ok : forall D, tidy D = true -> no_announce D = true -> prose_line_ok D = true.
+Proof.
+  intros D Ht Ha. unfold prose_line_ok. rewrite (edge_okb_of D (tidy_edge_ok D Ht)), Ha.
+  destruct (tidy_inv D Ht) as [Hs _]. rewrite (single_spaced_no D nl Hs eq_refl ltac:(discriminate)). reflexivity.
+Qed.
+
+Lemma ident_nospace : forall n, is_ident n = true -> nospace n /\ exists c r, n = c :: r.
+Proof.
+  intros n H. unfold is_ident in H. destruct n as [|c r]; [discriminate|].
+  apply andb_true_iff in H. destruct H as [_ Hall]. split; [|exists c, r; reflexivity].
+  unfold nospace. rewrite forallb_forall in *. intros x Hx. apply negb_true_iff. apply id_char_not_space.
+  apply Hall. exact Hx.
+Qed.
+
+Lemma doc_piece_tidy : forall w n D,
+    0 < w -> is_ident n = true -> is_return n = false ->
+    tidy D = true -> no_rest_token D = true -> no_announce D = true ->
+    List.length (L ":" ++ rest_key n ++ L ":") <= w -> doc_piece_ok w n D = true.
+Proof.
+  intros w n D Hw Hid Hret Ht Htok Ha Hlen.
+  destruct (ident_nospace n Hid) as [Hn [c0 [n' En]]].
+  destruct (tidy_inv D Ht) as [HsD [d0 [dr [ED Hd0]]]].
+  set (hdr := L ":param " ++ n ++ L ":").
+  assert (Ehdr : L ":" ++ rest_key n ++ L ":" = hdr).
+  { unfold rest_key, hdr. rewrite Hret. rewrite <- !app_assoc. reflexivity. }
+  rewrite Ehdr in Hlen.
+  assert (Eline : rest_doc_line n D = hdr ++ sp :: D).
+  { unfold rest_doc_line. change (L ": " ++ D) with (L ":" ++ sp :: D). rewrite !app_assoc.
+    rewrite <- (app_assoc (L ":")). rewrite Ehdr. reflexivity. }
+  assert (Hts : tidy (hdr ++ sp :: D) = true).
+  { unfold tidy. unfold hdr at 1. cbn [app]. cbn [negb andb isspace].
+    change (single_spaced (hdr ++ sp :: D) = true). unfold hdr.
+    change (L ":param " ++ n ++ L ":") with (L ":param" ++ sp :: n ++ L ":"). rewrite <- app_assoc.
+    apply single_spaced_nospace_app; [reflexivity|].
+    replace ((sp :: n ++ L ":") ++ sp :: D) with (sp :: c0 :: (n' ++ L ":" ++ sp :: D))
+      by (rewrite En; cbn [app]; rewrite <- app_assoc; reflexivity).
+    apply single_spaced_sp_cons.
+    - unfold nospace in Hn. rewrite En in Hn. cbn [forallb] in Hn. apply andb_true_iff in Hn. apply negb_true_iff. apply Hn.
+    - change (c0 :: n' ++ L ":" ++ sp :: D) with ((c0 :: n') ++ L ":" ++ sp :: D). rewrite <- En.
+      apply single_spaced_nospace_app; [exact Hn|]. apply single_spaced_nospace_app; [reflexivity|].
+      rewrite ED. apply single_spaced_sp_cons; [exact Hd0|]. rewrite <- ED. exact HsD. }
+  destruct (tidy_inv _ Hts) as [Hss _].
+  destruct (fill_ok_tidy w _ Hw Hss) as [r Hf].
+  assert (Hl : last_c hdr = Some colon) by (unfold hdr; rewrite app_assoc; apply last_c_app_single).
+  destruct (wrapped_value w hdr D r colon Ht Hts Hl eq_refl Hlen Hf) as [pad [lsV [Hne [F [EDj [Ei Hpad]]]]]].
+  unfold doc_piece_ok. rewrite (tidy_prose_line_ok D Ht Ha). cbn [andb].
+  unfold wrapped_line. rewrite Eline, Hf. cbn [bind]. rewrite Ei.
+  assert (Hpsp : forallb isspace pad = true) by (destruct Hpad; subst pad; reflexivity).
+  rewrite (value_after_pad hdr pad _ Hpsp (line_ok_first lsV _ Hne F)).
+  assert (Hpne : nonempty pad = true) by (destruct Hpad; subst pad; reflexivity).
+  rewrite Hpne, (edge_okb_of _ (join_edge_ok (nl :: P1) lsV Hne F)).
+  rewrite (no_rest_token_wrapped P1 lsV P1_allsp) by (rewrite <- EDj; exact Htok).
+  rewrite (no_announce_wrapped P1 lsV P1_allsp) by (rewrite <- EDj; exact Ha).
+  rewrite (norm_doc_wrapped lsV Hne F), <- EDj, str_eqb_refl. reflexivity.
+Qed.
+
+Lemma ret_piece_tidy : forall w D,
+    0 < w -> tidy D = true -> no_rest_token D = true -> no_announce D = true ->
+    List.length (L ":" ++ rest_key (L "return_type") ++ L ":") <= w -> ret_piece_ok w D = true.
+Proof.
+  intros w D Hw Ht Htok Ha Hlen.
+  destruct (tidy_inv D Ht) as [HsD [d0 [dr [ED Hd0]]]].
+  set (hdr := L ":returns:").
+  change (L ":" ++ rest_key (L "return_type") ++ L ":") with hdr in Hlen.
+  assert (Eline : rest_doc_line (L "return_type") D = hdr ++ sp :: D) by reflexivity.
+  assert (Hts : tidy (hdr ++ sp :: D) = true).
+  { unfold tidy. unfold hdr at 1. cbn [app]. cbn [negb andb isspace].
+    change (single_spaced (hdr ++ sp :: D) = true).
+    apply single_spaced_nospace_app; [reflexivity|].
+    rewrite ED. apply single_spaced_sp_cons; [exact Hd0|]. rewrite <- ED. exact HsD. }
+  destruct (tidy_inv _ Hts) as [Hss _].
+  destruct (fill_ok_tidy w _ Hw Hss) as [r Hf].
+  destruct (wrapped_value w hdr D r colon Ht Hts eq_refl eq_refl Hlen Hf) as [pad [lsV [Hne [F [EDj [Ei Hpad]]]]]].
+  unfold ret_piece_ok. rewrite (tidy_prose_line_ok D Ht Ha). cbn [andb].
+  unfold wrapped_line. rewrite Eline, Hf. cbn [bind]. rewrite Ei.
+  assert (Hpsp : forallb isspace pad = true) by (destruct Hpad; subst pad; reflexivity).
+  rewrite (value_after_pad hdr pad _ Hpsp (line_ok_first lsV _ Hne F)).
+  assert (Hpne : nonempty pad = true) by (destruct Hpad; subst pad; reflexivity).
+  rewrite Hpne, (edge_okb_of _ (join_edge_ok (nl :: P1) lsV Hne F)).
+  rewrite (no_rest_token_wrapped P1 lsV P1_allsp) by (rewrite <- EDj; exact Htok).
+  rewrite (no_announce_wrapped P1 lsV P1_allsp) by (rewrite <- EDj; exact Ha).
+  rewrite EDj. rewrite (ws_eqb_of_words _ _ (words_wrapped P1 lsV P1_allsp)). reflexivity.
+Qed.
+
+Lemma summary_piece_tidy : forall w d,
+    0 < w -> tidy d = true -> no_rest_token d = true -> summary_piece_ok w d = true.
+Proof.
+  intros w d Hw Ht Htok. destruct (tidy_inv d Ht) as [Hs _].
+  destruct (fill_ok_tidy w d Hw Hs) as [r Hf].
+  destruct (fill_tidy_repr w d r Ht Hf) as [ls [Hne [Ed [Er F]]]].
+  unfold summary_piece_ok. rewrite Htok, (strip_edge_ok d (tidy_edge_ok d Ht)), str_eqb_refl, Hf. cbn [andb].
+  assert (Hp0 : allsp_pad []) by reflexivity.
+  rewrite Er. change [nl] with (nl :: []).
+  rewrite (edge_okb_of _ (join_edge_ok (nl :: []) ls Hne F)).
+  rewrite (no_rest_token_wrapped [] ls Hp0) by (rewrite <- Ed; exact Htok).
+  rewrite Ed. rewrite (ws_eqb_of_words _ _ (words_wrapped [] ls Hp0)). reflexivity.
+Qed.
+
+(* ------------------------------------------------------------------ the closed-form guard implies the piece-wise one *)
+
+Lemma entry_tidy_pieces : forall w np,
+    0 < w -> (is_return (fst np) = true \/ is_ident (fst np) = true) ->
+    entry_tidy_ok w np = true -> entry_pieces_ok w np = true.
+Proof.
+  intros w [n p] Hw Hn H. unfold entry_tidy_ok in H. unfold entry_pieces_ok. cbn [fst snd] in *.
+  destruct (rest_block_of true n p) as [[b p']|e]; [|discriminate].
+  apply andb_true_iff in H. destruct H as [H Htyp]. apply andb_true_iff in H. destruct H as [Hsome Hdoc].
+  rewrite Hsome, Htyp. cbn [andb]. rewrite andb_true_r.
+  destruct (rb_doc b) as [D|]; [|reflexivity].
+  apply andb_true_iff in Hdoc. destruct Hdoc as [Hdoc Hlen]. apply andb_true_iff in Hdoc. destruct Hdoc as [Hdoc Ha].
+  apply andb_true_iff in Hdoc. destruct Hdoc as [Ht Htok]. apply Nat.leb_le in Hlen.
+  rewrite Htok. cbn [andb].
+  destruct (is_return n) eqn:Er.
+  - unfold is_return in Er. apply str_eqb_eq in Er. subst n. apply ret_piece_tidy; assumption.
+  - destruct Hn as [Hn|Hn]; [discriminate|]. apply doc_piece_tidy; assumption.
+Qed.
+
+Theorem C18_tidy_pieces_lemma : forall w i,
+    guard_C18_rest_tidy w i = true -> guard_C18_rest_pieces w i = true.
+Proof.
+  intros w i H. unfold guard_C18_rest_tidy in H. apply andb_true_iff in H. destruct H as [Hw H].
+  apply Nat.ltb_lt in Hw. unfold guard_C18_rest_pieces.
+  destruct (ir_doc i) as [| |d]; try discriminate. destruct (params_of (ir_params i)) as [ps|]; [|discriminate].
+  apply andb_true_iff in H. destruct H as [H Hret]. apply andb_true_iff in H. destruct H as [H Hentries].
+  apply andb_true_iff in H. destruct H as [Hsum Hnames]. apply andb_true_iff in Hsum. destruct Hsum as [Htd Htok].
+  rewrite (summary_piece_tidy w d Hw Htd Htok), Hnames. cbn [andb].
+  assert (Hps : forallb (entry_pieces_ok w) ps = true).
+  { clear Hret. induction ps as [|np ps IH]; [reflexivity|].
+    cbn [forallb] in *. apply andb_true_iff in Hnames. destruct Hnames as [Hn1 Hn2].
+    apply andb_true_iff in Hentries. destruct Hentries as [He1 He2].
+    rewrite (IH Hn2 He2), andb_true_r. apply entry_tidy_pieces; [exact Hw| |exact He1].
+    right. unfold param_name_ok in Hn1. apply andb_true_iff in Hn1. apply Hn1. }
+  rewrite Hps. cbn [andb].
+  destruct (ir_returns i) as [| |g]; try exact Hret.
+  destruct (param_of_gparam g) as [p|]; [|discriminate].
+  apply entry_tidy_pieces; [exact Hw|left; reflexivity|exact Hret].
+Qed.
+
+(* the parse-level theorem under a closed-form condition on the IR *)
+Theorem C18_rest_parse_tidy_lemma : forall w edd i,
+    guard_C01_rest edd i = true -> guard_C18_rest_tidy w i = true ->
+    exists tw tu dw du,
+      emit_docstring w DocEmit.Rest true true i = Ok (tw, i)
+      /\ emit_docstring w DocEmit.Rest false true i = Ok (tu, i)
+      /\ parse_dot_docstring ng_unmodelled tw false true edd = Ok dw
+      /\ parse_dot_docstring ng_unmodelled tu false true edd = Ok du
+      /\ ir_params dw = ir_params du
+      /\ same_interface_ws false du dw = true
+      /\ same_interface edd i du = true
+      /\ same_interface_ws edd i dw = true.
+Proof.
+  intros w edd i H01 Ht. apply C18_rest_parse_lemma. unfold guard_C18_rest_parse.
+  rewrite H01, (C18_tidy_pieces_lemma w i Ht).
+  unfold guard_C18_rest_tidy in Ht. apply andb_true_iff in Ht. destruct Ht as [Hw _]. rewrite Hw. reflexivity.
+Qed.
+
+Lemma C18_rest_parse_tidy_nonvacuous_lemma :
+  guard_C18_rest_tidy 22 c18_long_ir = true /\ guard_C18_rest_tidy 30 c18_long_ir = true
+  /\ guard_C01_rest true c18_long_ir = true /\ guard_C01_rest false c18_long_ir = true
+  /\ guard_nowrap 30 DocEmit.Rest true c18_long_ir = false
+  /\ guard_C18_rest_tidy 21 c18_long_ir = false.
+Proof. vm_compute. repeat split. Qed.
